@@ -19,6 +19,7 @@ the `num_bytes` of the block), NPOSTFIX = NDIRECT = 0.
 -/
 import BV.Lemmas.ZopfliExample
 import BV.Lemmas.ZopfliUpd3
+import BV.Lemmas.ZopfliH10
 import BV.Props.C01MetaBlock
 
 namespace BV.Props.C01Zopfli
@@ -193,6 +194,22 @@ theorem match_loop_sound_partial {K : Type} {C : ZC} {inf : K} {lim : Nat} {q : 
     Inv2 C inf lim q s'.nodes :=
   matchLoop_inv hz ops m p pos hlim pd hpdq inscode baseCost ms len s s' hms hlen hinv h
 
+/-- **h10_short_matches_sound_partial** — a first layer of `MatchOK` for the modelled `FindAllMatchesH10`: every
+match its short-distance loop reports (`for i in (stop+1 ..= cur_ix-1).rev()` with the `best_len <= 2` guard, the
+`backward > max_backward` break, the two-byte filter and `FindMatchLengthWithLimit`) is `BackwardMatch::init(backward, len)`
+with `1 ≤ backward ≤ min(max_backward, cur_ix)`, `len ≤ max_length`, and `len` agreeing bytes at the two masked ring
+positions.  PARTIAL: the binary-tree walk `StoreAndFindMatchesH10` (the other source of ring matches), the bit-field
+decoding of `BackwardMatch`, the transfer from the ring to the text and the dictionary oracle hypothesis are not done. -/
+theorem h10_short_matches_sound_partial (data : ByteArray) (mask curIx maxLength maxBackward stop : Nat)
+    (hcur : curIx < 2 ^ 63) (hmb : maxBackward ≤ curIx) (bestLen : Nat) (acc : List Match)
+    (h : Zopfli.H10.shortLoop data mask curIx maxLength maxBackward stop 65 (wsub curIx 1) 1 [] = some (bestLen, acc)) :
+    ∀ x ∈ acc, RingMatch data mask curIx maxLength maxBackward x := by
+  have hU : U64 = 18446744073709551616 := rfl
+  refine shortLoop_sound data mask curIx maxLength maxBackward stop hcur hmb 65 (wsub curIx 1) 1 [] (bestLen, acc) h ?_
+    (fun x hx => by cases hx)
+  rw [wsub_eq (by omega) (by omega)]
+  split <;> omega
+
 /-! ### non-vacuity (the concrete instance lives in BV/Lemmas/ZopfliZEx.lean) -/
 
 /-- a concrete node array meets every hypothesis of `zopfli_commands_lockstep`; the run emits one copy
@@ -253,5 +270,14 @@ example : DPInv ⟨fun _ _ _ => none, Zopfli.maxBackwardLimit ZEx.params, ZEx.pa
     rcases ZEx.nodesDP_get e n (by omega) hn with rfl | ⟨rfl, rfl⟩
     · rfl
     · exact absurd hs (by unfold Node.isStub; decide)
+
+/-- the short-distance loop on a concrete ring (`1 2 3 1 2 3 1 2 3 9`, position 6): it reports the match of length 3
+at distance 3, and `h10_short_matches_sound_partial` certifies it -/
+example : ∃ bl acc, Zopfli.H10.shortLoop ⟨(([1, 2, 3, 1, 2, 3, 1, 2, 3, 9] ++ List.replicate 60 0).map UInt8.ofNat).toArray⟩
+      63 6 3 6 0 65 (wsub 6 1) 1 [] = some (bl, acc) ∧ acc = [Match.init 3 3] ∧
+    ∀ x ∈ acc, RingMatch ⟨(([1, 2, 3, 1, 2, 3, 1, 2, 3, 9] ++ List.replicate 60 0).map UInt8.ofNat).toArray⟩ 63 6 3 6 x := by
+  have hrun : Zopfli.H10.shortLoop ⟨(([1, 2, 3, 1, 2, 3, 1, 2, 3, 9] ++ List.replicate 60 0).map UInt8.ofNat).toArray⟩
+      63 6 3 6 0 65 (wsub 6 1) 1 [] = some (3, [Match.init 3 3]) := by decide +kernel
+  exact ⟨3, _, hrun, rfl, h10_short_matches_sound_partial _ 63 6 3 6 0 (by decide) (by decide) 3 _ hrun⟩
 
 end BV.Props.C01Zopfli
